@@ -135,7 +135,7 @@ func ruleC17(c *Ctx) {
 						c.bad("C17-R1", fname, "store to package variable "+kind[7:]+path, pos, "a public operation writes package-level state ("+kind[7:]+path+"): concurrent calls race and calls are no longer isolated")
 					case isProviderRooted(kind):
 						nProvider++
-						ok := fname == "(*SAMLServiceProvider).SigningContext" && (path == ".signingContext" || strings.Contains(kind, ".signingContext)"))
+						ok := c.P.withinOnly(fn, allowNames("(*SAMLServiceProvider).SigningContext")) && (path == ".signingContext" || strings.Contains(kind, ".signingContext)"))
 						if ok {
 							c.ok("C17-R1", fname, "store through the provider: "+kind+path, pos, "the lazily created signing context (lock discipline checked by R2)")
 						} else {
@@ -179,7 +179,7 @@ func ruleC17(c *Ctx) {
 							continue
 						}
 						nProvider++
-						ok := fname == "(*SAMLServiceProvider).SigningContext"
+						ok := c.P.withinOnly(fn, allowNames("(*SAMLServiceProvider).SigningContext"))
 						c.check(ok, "C17-R1", fname, "mutating call "+shortName(name)+" on "+describeBase(kind, path), c.P.InstrPos(x), "inside SigningContext (lock discipline checked by R2)", "a public operation mutates provider-reachable state through "+shortName(name))
 					}
 				}
